@@ -207,6 +207,43 @@ def r146_rings_agree(ctx, res):
     ctx.require(res, "R14.6", n, 3, "vertex rings of Cylinder / Cone")
 
 
+def r147_orientation_free_guards(ctx, res):
+    """a parallelogram / parallelepiped is the same set whatever the sign and order of its edge vectors: a rejection
+    guard may not compare a quantity that changes sign with one of the vectors (a signed area / triple product) with a
+    threshold one-sidedly -- half of the valid argument orders would be refused"""
+    import ast
+    from ..astutil import expand_locals, txt
+    from .c15 import rejection_guards, vector_parity
+
+    n = 0
+    for short, vecs in (("ConvexPolygon.Parallelogram", ("v1", "v2")), ("ConvexPolyhedron.Parallelepiped", ("v1", "v2", "v3"))):
+        fi = ctx.repo.fn(short)
+        vecs = tuple(v for v in vecs if v in fi.params)
+        g = ctx.cfg(fi)
+        bad = []
+        k = 0
+        for nid, rej, acc in rejection_guards(ctx, fi):
+            e = expand_locals(fi.node, g.nodes[nid].ast, fi.params)
+            for c in ast.walk(e):
+                if not (isinstance(c, ast.Compare) and len(c.ops) == 1 and isinstance(c.ops[0], (ast.Lt, ast.LtE, ast.Gt, ast.GtE))):
+                    continue
+                k += 1
+                for v in vecs:
+                    pl, pr = vector_parity(c.left, v), vector_parity(c.comparators[0], v)
+                    if (pl == "odd" and pr == "even") or (pl == "even" and pr == "odd"):
+                        bad.append((c, v))
+        n += 1
+        ok = not bad
+        res.ob("R14.7", fi.where(), "%s: rejection guards do not depend on the sign of an edge vector" % short, ok,
+               "%d ordering comparison(s) in the guards, all even in %s" % (k, ", ".join(vecs)) if ok else
+               "`%s` changes sign with %s" % (txt(bad[0][0])[:50], bad[0][1]))
+        for c, v in bad[:1]:
+            res.violation("R14.7", fi, c, "%s rejects on `%s`, a quantity that changes sign when %s is negated (or two edge vectors are "
+                          "exchanged), compared one-sidedly: valid edge vectors in the other orientation are refused" % (short, txt(c)[:60], v),
+                          construct="%s: signed guard `%s`" % (short, txt(c)[:40]))
+    ctx.require(res, "R14.7", n, 2, "builders with edge vectors")
+
+
 def run(ctx, res):
     res.explanation = (
         "Static decision of four structural clauses of C14: the seven builders (Parallelogram, Parallelepiped, Circle, "
@@ -244,6 +281,7 @@ def run(ctx, res):
     ctx.require(res, "R14.2", k, 1, "normalised cross products in get_circle_point_list (one per reaching definition of the base axis)")
     r145_frame(ctx, res)
     r146_rings_agree(ctx, res)
+    r147_orientation_free_guards(ctx, res)
     # R14.3
     check_guard(ctx, res, GuardOb("get_circle_point_list", "n >= 3", "a circle with n < 3 must be rejected",
                                   inputs_any={"n"}, min_accept=3, subject="n"), rule="R14.3")
